@@ -73,7 +73,7 @@ class Group:
         self.kind = attrs.get("kind", "K")
         self.mode = attrs.get("mode", "harness")
         self.tier = attrs.get("tier", "quick")
-        self.knowns = re.findall(r"VF_KNOWN\(\s*(\w+)\s*,", text)
+        self.knowns = re.findall(r"VF_KNOWN(?:_GUARD)?\(\s*(\w+)\s*,", text)
 
     def __repr__(self):
         return "%s.%s" % (self.fam.name, self.name)
@@ -178,6 +178,15 @@ class Lowered:
                 return ("__CPROVER_assume(%s)" if fid == self.probe else "__CPROVER_assume(!(%s))") % w
             return "((void)0)"
         body = re.sub(r"VF_KNOWN\(\s*(\w+)\s*,((?:[^()]|\((?:[^()]|\((?:[^()]|\([^()]*\))*\))*\))*)\)", kf, body)
+
+        def kg(m):
+            # VF_KNOWN_GUARD(id, witness): an EXPRESSION that guards a single assertion (the rest of the harness keeps checking the
+            # witness class): unlisted -> 1; listed -> !(witness); probe of that id -> (witness)
+            fid, w = m.group(1), m.group(2)
+            if fid in self.known:
+                return ("(%s)" if fid == self.probe else "(!(%s))") % w
+            return "(1)"
+        body = re.sub(r"VF_KNOWN_GUARD\(\s*(\w+)\s*,((?:[^()]|\((?:[^()]|\((?:[^()]|\([^()]*\))*\))*\))*)\)", kg, body)
         return ('#include "vf.h"\n#include "names.h"\n#include "gen.c"\n' + "".join(self.fam.common) + "\n" + body)
 
 
